@@ -15,11 +15,12 @@
 //!                            (slite mini rkyv*: <enc> = the codec's output, which the model does not compute;
 //!                            the harness checks the real encoder reproduces it). carrier:
 //!                              d   by hand, as resource.rs does: id = next_id(); if get_is_hydrating() { write_async(id, fut) }
-//!                              ar  ArcResource::new_with_options   r  Resource::new_with_options
-//!                              ao  ArcOnceResource::new_with_options   o  OnceResource::new_with_options
-//!                              sv  SharedValue::new_with_encoding (ready at once)
+//!                              ar  ArcResource   r  Resource   ao  ArcOnceResource   o  OnceResource, each through the constructor
+//!                                  leptos_server names for the codec (new_str, new, new_serde_lite, new_miniserde, new_rkyv;
+//!                                  new_with_options for the custom codec); arb rb aob ob = its `*_blocking` twin
+//!                              sv  SharedValue::new_str / new / … (ready at once)
 //!                            created under an Owner whose shared context forwards to the real SsrSharedContext
-//!                            and records next_id / write_async                         -> w <k> <id> <registered 0|1> enc=<encoded string>
+//!                            and records next_id / write_async                         -> w <k> <id> <registered 0|1> enc=<encoded string> ## verdict
 //!   err <b> <e> <msg>        register_error(boundary b, error id e, Error whose Display is msg) -> ok
 //!   seal <b>                 seal_errors                                              -> ok
 //!   inc <id>                 set_incomplete_chunk                                     -> ok
@@ -681,16 +682,131 @@ enum Variant {
     Shared,  // SharedValue::new_with_encoding
 }
 impl Variant {
-    fn parse(s: &str) -> Option<Variant> {
+    /// (carrier, blocking): a trailing `b` selects the `*_blocking` constructor
+    fn parse(s: &str) -> Option<(Variant, bool)> {
         Some(match s {
-            "d" => Variant::Direct,
-            "ar" => Variant::ArcRes,
-            "r" => Variant::Res,
-            "ao" => Variant::ArcOnce,
-            "o" => Variant::Once,
-            "sv" => Variant::Shared,
+            "d" => (Variant::Direct, false),
+            "ar" => (Variant::ArcRes, false),
+            "arb" => (Variant::ArcRes, true),
+            "r" => (Variant::Res, false),
+            "rb" => (Variant::Res, true),
+            "ao" => (Variant::ArcOnce, false),
+            "aob" => (Variant::ArcOnce, true),
+            "o" => (Variant::Once, false),
+            "ob" => (Variant::Once, true),
+            "sv" => (Variant::Shared, false),
             _ => return None,
         })
+    }
+}
+
+/// the constructors leptos_server names for a codec (`new_str` / `new_str_blocking`, `new` /
+/// `new_blocking`, `new_rkyv` / …): every carrier is built through them
+trait Named<T: Send + Sync + 'static>: Sized {
+    fn arc_res<F, Fut>(f: F, blocking: bool) -> ArcResource<T, Self>
+    where
+        F: Fn(()) -> Fut + Send + Sync + 'static,
+        Fut: Future<Output = T> + Send + 'static;
+    fn res<F, Fut>(f: F, blocking: bool) -> Resource<T, Self>
+    where
+        F: Fn(()) -> Fut + Send + Sync + 'static,
+        Fut: Future<Output = T> + Send + 'static;
+    fn arc_once<Fut>(fut: Fut, blocking: bool) -> ArcOnceResource<T, Self>
+    where
+        Fut: Future<Output = T> + Send + 'static;
+    fn once<Fut>(fut: Fut, blocking: bool) -> OnceResource<T, Self>
+    where
+        Fut: Future<Output = T> + Send + 'static;
+    fn shared(init: impl FnOnce() -> T) -> SharedValue<T, Self>;
+}
+macro_rules! named {
+    ($t:ty, $ser:ty, $new:ident, $newb:ident) => {
+        impl Named<$t> for $ser {
+            fn arc_res<F, Fut>(f: F, blocking: bool) -> ArcResource<$t, Self>
+            where
+                F: Fn(()) -> Fut + Send + Sync + 'static,
+                Fut: Future<Output = $t> + Send + 'static,
+            {
+                if blocking {
+                    ArcResource::$newb(|| (), f)
+                } else {
+                    ArcResource::$new(|| (), f)
+                }
+            }
+            fn res<F, Fut>(f: F, blocking: bool) -> Resource<$t, Self>
+            where
+                F: Fn(()) -> Fut + Send + Sync + 'static,
+                Fut: Future<Output = $t> + Send + 'static,
+            {
+                if blocking {
+                    Resource::$newb(|| (), f)
+                } else {
+                    Resource::$new(|| (), f)
+                }
+            }
+            fn arc_once<Fut>(fut: Fut, blocking: bool) -> ArcOnceResource<$t, Self>
+            where
+                Fut: Future<Output = $t> + Send + 'static,
+            {
+                if blocking {
+                    ArcOnceResource::$newb(fut)
+                } else {
+                    ArcOnceResource::$new(fut)
+                }
+            }
+            fn once<Fut>(fut: Fut, blocking: bool) -> OnceResource<$t, Self>
+            where
+                Fut: Future<Output = $t> + Send + 'static,
+            {
+                if blocking {
+                    OnceResource::$newb(fut)
+                } else {
+                    OnceResource::$new(fut)
+                }
+            }
+            fn shared(init: impl FnOnce() -> $t) -> SharedValue<$t, Self> {
+                SharedValue::$new(init)
+            }
+        }
+    };
+}
+named!(String, FromToStringCodec, new_str, new_str_blocking);
+named!(String, JsonSerdeCodec, new, new_blocking);
+named!(serde_json::Value, JsonSerdeCodec, new, new_blocking);
+named!(String, SerdeLite<JsonSerdeCodec>, new_serde_lite, new_serde_lite_blocking);
+named!(String, MiniserdeCodec, new_miniserde, new_miniserde_blocking);
+named!(String, RkyvCodec, new_rkyv, new_rkyv_blocking);
+named!(i64, RkyvCodec, new_rkyv, new_rkyv_blocking);
+/// a user-defined codec has no named constructor: `new_with_options` / `new_with_encoding`
+impl Named<Vec<u8>> for RawBytes {
+    fn arc_res<F, Fut>(f: F, blocking: bool) -> ArcResource<Vec<u8>, Self>
+    where
+        F: Fn(()) -> Fut + Send + Sync + 'static,
+        Fut: Future<Output = Vec<u8>> + Send + 'static,
+    {
+        ArcResource::new_with_options(|| (), f, blocking)
+    }
+    fn res<F, Fut>(f: F, blocking: bool) -> Resource<Vec<u8>, Self>
+    where
+        F: Fn(()) -> Fut + Send + Sync + 'static,
+        Fut: Future<Output = Vec<u8>> + Send + 'static,
+    {
+        Resource::new_with_options(|| (), f, blocking)
+    }
+    fn arc_once<Fut>(fut: Fut, blocking: bool) -> ArcOnceResource<Vec<u8>, Self>
+    where
+        Fut: Future<Output = Vec<u8>> + Send + 'static,
+    {
+        ArcOnceResource::new_with_options(fut, blocking)
+    }
+    fn once<Fut>(fut: Fut, blocking: bool) -> OnceResource<Vec<u8>, Self>
+    where
+        Fut: Future<Output = Vec<u8>> + Send + 'static,
+    {
+        OnceResource::new_with_options(fut, blocking)
+    }
+    fn shared(init: impl FnOnce() -> Vec<u8>) -> SharedValue<Vec<u8>, Self> {
+        SharedValue::new_with_encoding(init)
     }
 }
 
@@ -1011,11 +1127,12 @@ fn server_make<T, Ser>(
     owner: &Owner,
     ctx: &Arc<Spy>,
     variant: Variant,
+    blocking: bool,
     raw: &[u8],
 ) -> Option<(Box<dyn Any>, Option<Completer>)>
 where
     T: TV,
-    Ser: Encoder<T> + Decoder<T> + Send + 'static,
+    Ser: Encoder<T> + Decoder<T> + Named<T> + Send + 'static,
     <Ser as Encoder<T>>::Error: Debug,
     <Ser as Decoder<T>>::Error: Debug,
     <<Ser as Decoder<T>>::Encoded as FromEncodedStr>::DecodingError: Debug,
@@ -1065,9 +1182,9 @@ where
             };
             let keep: Box<dyn Any> = owner.with(|| {
                 if variant == Variant::ArcRes {
-                    Box::new(ArcResource::<T, Ser>::new_with_options(|| (), fetcher, false)) as Box<dyn Any>
+                    Box::new(<Ser as Named<T>>::arc_res(fetcher, blocking)) as Box<dyn Any>
                 } else {
-                    Box::new(Resource::<T, Ser>::new_with_options(|| (), fetcher, false)) as Box<dyn Any>
+                    Box::new(<Ser as Named<T>>::res(fetcher, blocking)) as Box<dyn Any>
                 }
             });
             (keep, Some(completer))
@@ -1075,16 +1192,16 @@ where
         Variant::ArcOnce | Variant::Once => {
             let keep: Box<dyn Any> = owner.with(|| {
                 if variant == Variant::ArcOnce {
-                    Box::new(ArcOnceResource::<T, Ser>::new_with_options(load, false)) as Box<dyn Any>
+                    Box::new(<Ser as Named<T>>::arc_once(load, blocking)) as Box<dyn Any>
                 } else {
-                    Box::new(OnceResource::<T, Ser>::new_with_options(load, false)) as Box<dyn Any>
+                    Box::new(<Ser as Named<T>>::once(load, blocking)) as Box<dyn Any>
                 }
             });
             (keep, Some(completer))
         }
         Variant::Shared => {
             let keep: Box<dyn Any> =
-                owner.with(|| Box::new(SharedValue::<T, Ser>::new_with_encoding(move || value).into_inner()) as Box<dyn Any>);
+                owner.with(|| Box::new(<Ser as Named<T>>::shared(move || value).into_inner()) as Box<dyn Any>);
             (keep, None)
         }
     })
@@ -1096,13 +1213,14 @@ fn client_make<T, Ser>(
     owner: &Owner,
     ctx: &Arc<dyn SharedContext + Send + Sync>,
     variant: Variant,
+    blocking: bool,
     raw: &[u8],
     fetches: &Arc<AtomicUsize>,
     keep: &mut Vec<Box<dyn Any>>,
 ) -> Status
 where
     T: TV,
-    Ser: Encoder<T> + Decoder<T> + Send + 'static,
+    Ser: Encoder<T> + Decoder<T> + Named<T> + Send + 'static,
     <Ser as Encoder<T>>::Error: Debug,
     <Ser as Decoder<T>>::Error: Debug,
     <<Ser as Decoder<T>>::Encoded as FromEncodedStr>::DecodingError: Debug,
@@ -1134,8 +1252,7 @@ where
             }
         }
         Variant::ArcRes => {
-            let r = ArcResource::<T, Ser>::new_with_options(
-                || (),
+            let r = <Ser as Named<T>>::arc_res(
                 move |_| {
                     // counted when the load is actually polled, not when the future is built
                     let refetch = refetch.clone();
@@ -1144,15 +1261,14 @@ where
                         futures::future::pending::<T>().await
                     }
                 },
-                false,
+                blocking,
             );
             let got = r.try_read_untracked().and_then(|g| (*g).clone());
             keep.push(Box::new(r));
             Status::of(got, &expected)
         }
         Variant::Res => {
-            let r = Resource::<T, Ser>::new_with_options(
-                || (),
+            let r = <Ser as Named<T>>::res(
                 move |_| {
                     // counted when the load is actually polled, not when the future is built
                     let refetch = refetch.clone();
@@ -1161,37 +1277,37 @@ where
                         futures::future::pending::<T>().await
                     }
                 },
-                false,
+                blocking,
             );
             let got = r.try_read_untracked().and_then(|g| (*g).clone());
             Status::of(got, &expected)
         }
         Variant::ArcOnce => {
-            let r = ArcOnceResource::<T, Ser>::new_with_options(
+            let r = <Ser as Named<T>>::arc_once(
                 async move {
                     refetch();
                     futures::future::pending::<T>().await
                 },
-                false,
+                blocking,
             );
             let got = r.try_read_untracked().and_then(|g| (*g).clone());
             keep.push(Box::new(r));
             Status::of(got, &expected)
         }
         Variant::Once => {
-            let r = OnceResource::<T, Ser>::new_with_options(
+            let r = <Ser as Named<T>>::once(
                 async move {
                     refetch();
                     futures::future::pending::<T>().await
                 },
-                false,
+                blocking,
             );
             let got = r.try_read_untracked().and_then(|g| (*g).clone());
             Status::of(got, &expected)
         }
         Variant::Shared => {
             let before = fetches.load(Ordering::SeqCst);
-            let v = SharedValue::<T, Ser>::new_with_encoding(reinit).into_inner();
+            let v = <Ser as Named<T>>::shared(reinit).into_inner();
             if fetches.load(Ordering::SeqCst) != before {
                 Status::None // the initialiser ran: nothing usable arrived
             } else {
@@ -1207,6 +1323,7 @@ struct W {
     id: usize,
     kind: Kind,
     variant: Variant,
+    blocking: bool,
     raw: Vec<u8>,
     /// `Ser::encode(value).into_encoded_string()` computed by the real codec
     enc: String,
@@ -1503,7 +1620,7 @@ fn op(c: &mut Case, tags: &HashMap<String, String>, line: &str) -> String {
             format!("id {}", c.spy.next_id().into_inner())
         }
         ["write", kind, variant, rest @ ..] => {
-            let (Some(kind), Some(variant)) = (Kind::parse(kind), Variant::parse(variant)) else {
+            let (Some(kind), Some((variant, blocking))) = (Kind::parse(kind), Variant::parse(variant)) else {
                 return "bad-op".into();
             };
             let (raw, aux) = match (rest, kind.has_aux()) {
@@ -1518,7 +1635,7 @@ fn op(c: &mut Case, tags: &HashMap<String, String>, line: &str) -> String {
             let Some(enc) = with_kind!(kind, enc_of(&raw)) else { return "bad-op".into() };
             let hyd = c.spy.get_is_hydrating();
             let log_from = c.spy.log.lock().unwrap().len();
-            let Some((keep, completer)) = with_kind!(kind, server_make(&c.owner, &c.spy, variant, &raw)) else {
+            let Some((keep, completer)) = with_kind!(kind, server_make(&c.owner, &c.spy, variant, blocking, &raw)) else {
                 return "bad-op".into();
             };
             // let the resource start its load (it then waits for `complete`)
@@ -1538,6 +1655,7 @@ fn op(c: &mut Case, tags: &HashMap<String, String>, line: &str) -> String {
                 id,
                 kind,
                 variant,
+                blocking,
                 raw,
                 enc: enc.clone(),
                 reg,
@@ -1547,7 +1665,16 @@ fn op(c: &mut Case, tags: &HashMap<String, String>, line: &str) -> String {
                 completed: reg && variant == Variant::Shared,
                 emitted: 0,
             });
-            format!("w {k} {id} {} enc={}", reg as u8, hex(enc.as_bytes()))
+            // oracle: a value is handed to `write_async` exactly when the flag is on — whatever the
+            // carrier, blocking or not (else the client has to load it again)
+            let verdict = if hyd && !reg {
+                "fail carrier-not-serialized"
+            } else if !hyd && reg {
+                "fail carrier-serialized-outside-hydration"
+            } else {
+                "ok"
+            };
+            format!("w {k} {id} {} enc={} ## {verdict}", reg as u8, hex(enc.as_bytes()))
         }
         ["err", b, e, h] => {
             let (Ok(b), Ok(e), Some(m)) = (b.parse::<usize>(), e.parse::<usize>(), unhex_str(h)) else {
@@ -1685,7 +1812,7 @@ fn op(c: &mut Case, tags: &HashMap<String, String>, line: &str) -> String {
                     }
                     Created::Write(k, true) => {
                         let wr = &c.writes[*k];
-                        let st = with_kind!(wr.kind, client_make(&owner, &ctx, wr.variant, &wr.raw, &fetches, &mut keep));
+                        let st = with_kind!(wr.kind, client_make(&owner, &ctx, wr.variant, wr.blocking, &wr.raw, &fetches, &mut keep));
                         shown.push(format!("{k}:{}", st.show()));
                         if present.contains(&wr.id) && st != Status::Ok {
                             bad = true;
@@ -1708,7 +1835,7 @@ fn op(c: &mut Case, tags: &HashMap<String, String>, line: &str) -> String {
         ["client", moment @ ("post" | "csr"), kind, variant, rest @ ..] => {
             // a carrier created on the client at another moment: after `hydration_complete()` on the
             // hydrated page (whose data is still readable), or on a page that was never server-rendered
-            let (Some(kind), Some(variant)) = (Kind::parse(kind), Variant::parse(variant)) else {
+            let (Some(kind), Some((variant, blocking))) = (Kind::parse(kind), Variant::parse(variant)) else {
                 return "bad-op".into();
             };
             let raw = match (rest, kind.has_aux()) {
@@ -1737,7 +1864,7 @@ fn op(c: &mut Case, tags: &HashMap<String, String>, line: &str) -> String {
             };
             let log_from = side.spy.log.lock().unwrap().len();
             let before = side.fetches.load(Ordering::SeqCst);
-            let st = with_kind!(kind, client_make(&side.owner, &side.ctx, variant, &raw, &side.fetches, &mut side.keep));
+            let st = with_kind!(kind, client_make(&side.owner, &side.ctx, variant, blocking, &raw, &side.fetches, &mut side.keep));
             sched::run_until_idle(10_000);
             let loads = side.fetches.load(Ordering::SeqCst) - before;
             let evs: Vec<CEv> = side.spy.log.lock().unwrap()[log_from..].to_vec();
@@ -1939,6 +2066,7 @@ fn compute_tags(ops_path: &str) -> HashMap<String, String> {
                             "r" => "resource",
                             "ao" => "arc-once",
                             "o" => "once",
+                            "arb" | "rb" | "aob" | "ob" => "blocking",
                             "sv" => "shared-value",
                             _ => "variant?",
                         });
@@ -2123,7 +2251,7 @@ fn sanitize(s: &str, drop_lt: bool) -> String {
 
 /// one `write` op: `<kind> <variant> <value> [<encoded form for kinds the model does not encode>]`
 fn gen_write(r: &mut Rng, safe: bool) -> String {
-    let variant = *r.pick(&["d", "d", "d", "ar", "r", "ao", "o", "sv"]);
+    let variant = *r.pick(&["d", "d", "d", "ar", "r", "ao", "o", "sv", "arb", "rb", "aob", "ob"]);
     let text = |r: &mut Rng| {
         if r.chance(1, 8) {
             String::new() // the empty value is a value
@@ -2235,7 +2363,7 @@ fn late_client_ops(setup: &[String], r: &mut Rng) -> Vec<String> {
     let mut l = vec![];
     for _ in 0..r.below(4) {
         let moment = if r.chance(3, 4) { "post" } else { "csr" };
-        let carrier = *r.pick(&["d", "ar", "r", "ao", "ao", "o", "o", "sv"]);
+        let carrier = *r.pick(&["d", "ar", "r", "ao", "ao", "o", "o", "sv", "arb", "rb", "aob", "ob"]);
         if !writes.is_empty() && r.chance(1, 2) {
             let w = r.pick(&writes);
             let mut parts = vec!["client", moment, w[1], carrier];
@@ -2415,6 +2543,29 @@ fn gen(seed: u64, n: usize, path: &str) -> std::io::Result<()> {
                 let nv = r.range(1, 5);
                 let mut registered = vec![];
                 let mut next_err_id = 100;
+                // the error channel: a few boundaries, a small pool of texts (so that different errors
+                // with the SAME text in one boundary are common), one to three errors at a time
+                let err_pool: Vec<String> = (0..3)
+                    .map(|_| {
+                        let m = gen_string(&mut r, 5);
+                        if safe {
+                            sanitize(&m, true)
+                        } else {
+                            m
+                        }
+                    })
+                    .collect();
+                let n_boundaries = r.range(1, 3);
+                let mut err_burst = |r: &mut Rng, next_err_id: &mut usize| -> String {
+                    let mut lines = vec![];
+                    for _ in 0..r.range(1, 3) {
+                        let m = if r.chance(3, 4) { r.pick(&err_pool).clone() } else { gen_string(r, 6) };
+                        let m = if safe { sanitize(&m, true) } else { m };
+                        lines.push(format!("err {} {} {}", r.below(n_boundaries), *next_err_id, hex(m.as_bytes())));
+                        *next_err_id += 1;
+                    }
+                    lines.join("\n")
+                };
                 let mut hyd = true;
                 for k in 0..nv {
                     if r.chance(1, 8) {
@@ -2430,11 +2581,11 @@ fn gen(seed: u64, n: usize, path: &str) -> std::io::Result<()> {
                     if hyd && !shared {
                         registered.push(k); // a SharedValue needs no `complete`
                     }
-                    if r.chance(1, 6) {
-                        let m = gen_string(&mut r, 6);
-                        let m = if safe { sanitize(&m, true) } else { m };
-                        setup.push(format!("err {} {} {}", r.below(4), next_err_id, hex(m.as_bytes())));
-                        next_err_id += 1;
+                    if r.chance(1, 5) {
+                        // registered before `pending_data()`
+                        for l in err_burst(&mut r, &mut next_err_id).split('\n') {
+                            setup.push(l.to_string());
+                        }
                     }
                 }
                 if r.chance(1, 6) {
@@ -2448,12 +2599,8 @@ fn gen(seed: u64, n: usize, path: &str) -> std::io::Result<()> {
                     match r.below(4) {
                         0 => mid.push(format!("seal {}", r.below(4))),
                         1 => mid.push(format!("inc {}", r.below(20))),
-                        _ => {
-                            let m = gen_string(&mut r, 6);
-                            let m = if safe { sanitize(&m, true) } else { m };
-                            mid.push(format!("err {} {} {}", r.below(4), next_err_id, hex(m.as_bytes())));
-                            next_err_id += 1;
-                        }
+                        // between chunks / after the last value
+                        _ => mid.push(err_burst(&mut r, &mut next_err_id)),
                     }
                 }
                 // which server exit: the `pending_data()` stream or `consume_buffers()`
